@@ -80,7 +80,7 @@ def make(rule_id, pid=None):
             err_all = set(v.all_err_nodes())
             for t in triggers:
                 for req in row["require"]:
-                    cands = [c for c in v.calls.values() if _match_call(pr, c, req) and (t is None or _same_ok(pr, t, c, req.get("same", [])))]
+                    cands = [c for c in v.calls.values() if (_match_call(pr, c, req) or any(_match_call(pr, c, a_) for a_ in req.get("alt", []))) and (t is None or _same_ok(pr, t, c, req.get("same", [])))]
                     key = "%s/%s/%s/%s" % (res.rule, f.path, row["id"], req.get("name", req["callee"]))
                     tdesc = "entry" if t is None else "%s (line %d)" % (t.name.split("::")[-1], t.line)
                     if not cands:
@@ -136,6 +136,21 @@ def make(rule_id, pid=None):
                         starts = [pg.entry()]
                     else:
                         starts = v.ok_nodes(t.bb) or [s_ for s_ in pg.succ[("t", t.bb)]]
+                    exempt = set()
+                    if req.get("exempt_when"):
+                        # branches on which the obligation does not exist (a header word that only one version has)
+                        from prov import guards as _guards
+                        g3 = _guards(ctx, f)
+                        for b_, blk_ in enumerate(f.blocks):
+                            if blk_["cleanup"] or blk_["term"]["t"] != "switch":
+                                continue
+                            tt = blk_["term"]
+                            vals_ = [str(x) for x, _ in tt["arms"]] + ["otherwise"]
+                            tg_ = [b for _, b in tt["arms"]] + [tt["otherwise"]]
+                            for val_, tgt_ in zip(vals_, tg_):
+                                if any(re.search(req["exempt_when"], a_) for a_ in g3.describe_all(b_, val_, vals_)):
+                                    exempt.update(pg.edge_node(b_, tgt_))
+                    oks = oks | exempt
                     reach = pg.reach(starts, oks | err_all)
                     # a candidate that dominates the trigger also satisfies "same operation writes it"
                     pre_ok = False
